@@ -9,8 +9,8 @@
 (* (Outcome!Verdict).  Verdicts are total: failing clauses are printed as BAD lines, with the      *)
 (* spec-computed attribution of a known defect (Outcome!Attribution).                              *)
 (*                                                                                                 *)
-(* Planned families.  A case of the family "call" carries the callable and its calls (shape and     *)
-(* line); of the family "provoke" the class its text is to provoke.  The faults of every call are   *)
+(* Planned families.  A case of the family "call" carries its callables, each with its calls (shape  *)
+(* and line); of the family "provoke" the class its text is to provoke.  The faults of every call are   *)
 (* RE-COMPUTED here from the shapes (Outcome!ExpectClasses); COVER lines name the error classes     *)
 (* that were reported where the spec expects them (the driver's vacuity guard: every class of the   *)
 (* pinned catalogue, and every failed-call class by the call family alone), the reported names      *)
@@ -32,18 +32,18 @@ CallOf(x) == [npos |-> x.npos, kws |-> ToSet(x.kws)]
 Reported(c, cl, line) == \E e \in DOMAIN c.errs : c.errs[e][1] = cl /\ c.errs[e][2] = line
 Hit(c) ==
   CASE c.plan.fam = "call" ->
-         {cl \in CallClasses : \E j \in DOMAIN c.plan.calls :
-            /\ cl \in ExpectClasses(c.plan.c, CallOf(c.plan.calls[j]))
-            /\ Reported(c, cl, c.plan.calls[j].line)}
+         {cl \in CallClasses : \E g \in DOMAIN c.plan.group : \E j \in DOMAIN c.plan.group[g].calls :
+            /\ cl \in ExpectClasses(c.plan.group[g].c, CallOf(c.plan.group[g].calls[j]))
+            /\ Reported(c, cl, c.plan.group[g].calls[j].line)}
     [] c.plan.fam = "provoke" ->
          {cl \in {c.plan.want} : \E e \in DOMAIN c.errs : c.errs[e][1] = cl}
     [] OTHER -> {}
 (* calls the binding rules accept for which a binding error was reported (C13's subject; logged) *)
 Spurious(c) ==
   IF c.plan.fam # "call" THEN {}
-  ELSE {j \in DOMAIN c.plan.calls :
-          /\ BindingFaults(c.plan.c, CallOf(c.plan.calls[j])) = {}
-          /\ \E cl \in CallClasses \ {"wrong-arg-types"} : Reported(c, cl, c.plan.calls[j].line)}
+  ELSE {gj \in {x \in (DOMAIN c.plan.group) \X (1 .. 64) : x[2] \in DOMAIN c.plan.group[x[1]].calls} :
+          /\ BindingFaults(c.plan.group[gj[1]].c, CallOf(c.plan.group[gj[1]].calls[gj[2]])) = {}
+          /\ \E cl \in CallClasses \ {"wrong-arg-types"} : Reported(c, cl, c.plan.group[gj[1]].calls[gj[2]].line)}
 Unknown(c) == {c.errs[e][1] : e \in DOMAIN c.errs} \ ErrorClasses
 
 TInit == i = 1 /\ TLCSet(1, FALSE) /\ inp = 0 /\ st = 0 /\ errs = 0 /\ muts = 0 /\ hist = 0 /\ plan = 0
